@@ -47,7 +47,7 @@ type c14SchedStep struct {
 
 type c14Sched struct {
 	PeriodNs int64          `json:"period_ns"`
-	Pre      string         `json:"pre"`    // stopped | running
+	Pre      string         `json:"pre"` // stopped | running
 	IdleMs   int            `json:"idle_ms"`
 	D        []int64        `json:"d"` // timeout of goroutine i
 	Steps    []c14SchedStep `json:"steps"`
@@ -64,7 +64,8 @@ type c14Sched struct {
 // wall clock) involves no updater at all: the model reads the clock at the measured return time T of
 // the call, the real code read it somewhere between Lo (the goroutine left its last schedule point) and
 // T, and the reconstruction of fast.start from VerifClockState is exact to a few µs:
-//     model - 1 - ceil((T - Lo) / tick) <= real <= model + 1.
+//
+//	model - 1 - ceil((T - Lo) / tick) <= real <= model + 1.
 const c14ConcEps = c14EpsEarly
 
 func c14ConcTolRunning(period int64) int64 { return 1 + (period+c14ConcEps+c14Tick-1)/c14Tick }
@@ -116,13 +117,13 @@ type c14SchedG struct {
 }
 
 type c14SchedCall struct {
-	G      int
-	D      int64
-	T0Ns   int64 // since clock start (may be negative for a call begun before the first start)
-	Dl     int64
-	Path   []int
-	Done   bool
-	LagNs  int64 // (t0 - start) + d - dl*2^20: how much earlier than t0+d the deadline lies
+	G     int
+	D     int64
+	T0Ns  int64 // since clock start (may be negative for a call begun before the first start)
+	Dl    int64
+	Path  []int
+	Done  bool
+	LagNs int64 // (t0 - start) + d - dl*2^20: how much earlier than t0+d the deadline lies
 	// the deadline is beyond clockEnd after the schedule; the updater was then seen gone with the
 	// deadline not reached (time CurAtExit): the match holding it can no longer time out
 	Uncovered bool
@@ -321,13 +322,13 @@ func c14ConcDriverLine(cs c14Sched, tr *c14SchedTrace) string {
 
 // what the model says after one event: (o id moved pc e tMade wasRunning current clockEnd running)
 type c14ConcObs struct {
-	G                  int
-	Moved              bool
-	PC                 int
-	E, TMade           int64
-	WasRunning         bool
-	Cur, Ce            int64
-	Running            bool
+	G          int
+	Moved      bool
+	PC         int
+	E, TMade   int64
+	WasRunning bool
+	Cur, Ce    int64
+	Running    bool
 }
 
 func c14ConcParse(ans string, n int) ([]c14ConcObs, error) {
@@ -380,7 +381,7 @@ func c14ConcDiffClass(d, tol int64) string {
 
 type c14ConcFinding struct {
 	Key, Summary, Expected, Got string
-	G                            int
+	G                           int
 }
 
 // c14ConcCompare replays the trace on the model and compares, per call: the path, the deadline, and the
